@@ -183,7 +183,7 @@ impl Rich {
         w.must("open bundled", &ix);
         w.positions.push(info);
         let pos_bundled = w.positions.len() - 1;
-        let bundle_empty = w.init_bundle(owner).expect("bundle 2");
+        let bundle_empty = w.init_bundle_kind(owner, true).expect("bundle 2 (with metadata)");
         // badge for badge_mint under cfg (the feature is switched on by the admin first)
         let ix = w.ix_set_config_feature_flag(cfg, whirlpool::state::ConfigFeatureFlag::TokenBadge(true));
         w.must("feature flag", &ix);
